@@ -73,6 +73,10 @@ func runFlowCase(c *vf.Ctx, fc *flowCase) *flowResult {
 	} else {
 		p = pgen.Generate(fc.Seed, cfg)
 	}
+	if fc.Index%4 == 3 {
+		// pipeline bodies list their calls out of dependency order
+		p.ShuffleCallOrder(fc.Seed)
+	}
 	res.prog = p
 	dir := filepath.Join(c.WorkDir, fmt.Sprintf("case-%d", fc.Index))
 	res.dir = dir
